@@ -963,10 +963,21 @@ class Executor:
             st.trace.append(Event(callee="<yield>", args=[], fn=fn.name))
             self.write_place(st, fid, m.group(1), self.fresh(st, fn.locals.get(self.parse_place(m.group(1))[0], "?"), ("resume", st.count("yield"))))
             return m.group(3)
-        # call
-        m = re.match(r"^(.*?) = (.*)\((.*)\) -> (.*);$", t)
-        if m and self._balanced(m.group(3)):
-            return self.exec_call(fn, st, fid, m.group(1), m.group(2), m.group(3), t, stack)
+        # call:  dest = callee(args) -> [return: bb, unwind ...];
+        i = t.rfind(") -> ")
+        eq = t.find(" = ")
+        if i > 0 and eq > 0:
+            depth, j = 0, i
+            while j > eq:
+                if t[j] == ")":
+                    depth += 1
+                elif t[j] == "(":
+                    depth -= 1
+                    if depth == 0:
+                        break
+                j -= 1
+            if j > eq:
+                return self.exec_call(fn, st, fid, t[:eq], t[eq + 3:j], t[j + 1:i], t, stack)
         raise Unsupported("terminator: " + t)
 
     # ---- calls -----------------------------------------------------------------------------------
